@@ -910,3 +910,62 @@ where
     T: Eq,
 {
 }
+
+/// Verification hooks: state injection and read-back. Only compiled with feature `verif-hooks`.
+#[cfg(feature = "verif-hooks")]
+#[allow(missing_docs)]
+#[doc(hidden)]
+impl<P, T> PrefixMap<P, T> {
+    /// Build a map from raw parts. `arena_cap` / `free_cap` reserve capacity for the arena and the
+    /// free list (at least the given lengths).
+    #[allow(clippy::type_complexity)]
+    pub fn __verif_from_raw(
+        nodes: Vec<(P, Option<T>, Option<usize>, Option<usize>)>,
+        free: &[usize],
+        count: usize,
+        arena_cap: usize,
+        free_cap: usize,
+    ) -> Self {
+        let mut v = Vec::with_capacity(arena_cap.max(nodes.len()));
+        for (prefix, value, left, right) in nodes {
+            v.push(Node {
+                prefix,
+                value,
+                left,
+                right,
+            });
+        }
+        let mut f = Vec::with_capacity(free_cap.max(free.len()));
+        for x in free {
+            f.push(*x);
+        }
+        Self {
+            table: Table::__verif_new(v),
+            free: f,
+            count,
+        }
+    }
+    pub fn __verif_len(&self) -> usize {
+        self.table.as_ref().len()
+    }
+    pub fn __verif_node(&self, i: usize) -> (&P, Option<&T>, Option<usize>, Option<usize>) {
+        let n = &self.table[i];
+        (&n.prefix, n.value.as_ref(), n.left, n.right)
+    }
+    pub fn __verif_free(&self) -> &[usize] {
+        &self.free
+    }
+    pub fn __verif_count(&self) -> usize {
+        self.count
+    }
+    pub fn __verif_prefix_ptr(&self, i: usize) -> *const P {
+        &self.table[i].prefix as *const P
+    }
+    /// address of the value slot of node `i` (null if the node holds no value)
+    pub fn __verif_value_ptr(&self, i: usize) -> *const T {
+        match self.table[i].value.as_ref() {
+            Some(v) => v as *const T,
+            None => std::ptr::null(),
+        }
+    }
+}
